@@ -212,7 +212,10 @@ class Optimizer:
             Computed solution.
         """
         self.timer.start()
-        for self.itnum in range(self.itnum, self.itnum + self.maxiter):
+        # number of iterations of this call: fixed here, so that a callback that
+        # assigns self.maxiter cannot desynchronise the iteration counter
+        maxiter = self.maxiter
+        for self.itnum in range(self.itnum, self.itnum + maxiter):
             self.step()
             if self.nanstop and not self._working_vars_finite():
                 raise ValueError(
@@ -225,7 +228,7 @@ class Optimizer:
                 callback(self)
                 self.timer.start()
         self.timer.stop()
-        if self.maxiter > 0:
+        if maxiter > 0:
             self.itnum += 1
         self.itstat_object.end()
         return self.minimizer()
